@@ -114,6 +114,28 @@ reg(
   "three recorded cosmetic/edge deviations are reported as KNOWN-FINDING.",
 )
 
+reg(
+  "C06",
+  "property-based testing (Hypothesis) with an optimality certificate: MuJoCo's Gauss cost (mj_constraintUpdate) evaluated at MJWarp's qacc vs the reference optimum, plus row-law force identity",
+  "Random constrained models (all condims, equalities, limits, frictionloss; Newton/CG, cones, dense/sparse, impratio, warmstart zero/random/disabled) on settled states: "
+  "cost(qacc_mjwarp) <= cost(optimum) up to 1e-4 (Newton) / 3e-3 + 10x MuJoCo-CG excess (CG), qacc agrees with MuJoCo (Newton), efc.force equals the closed-form row law of "
+  "that qacc on MJWarp's own rows, qfrc_constraint = J^T force.",
+  "Needs MJWarp's rows to match MuJoCo's (otherwise skipped, counted); MuJoCo Newton at tolerance 1e-10 is the optimum; elliptic rows are covered by the cost test, not the row law.",
+)
+reg(
+  "C24",
+  "property-based invariant testing (Hypothesis): admissibility predicate over solved constraint forces",
+  "Random constrained models incl. adhesion x both cones/solvers: non-negative limit/contact forces, elliptic forces inside their cone, pyramidal edges non-negative, "
+  "|friction-loss force| <= frictionloss, SATISFIED rows carry zero force, qfrc_constraint = J^T force, contact_force normal >= -adhesion.",
+  "eps = 1e-4*max(1,|f|max); unconverged worlds only checked for J^T f.",
+)
+reg(
+  "C39",
+  "property-based differential testing (Hypothesis) against mujoco.mj_contactForce fed with MJWarp's solved forces",
+  "Random contact scenes, all condims, both cones, adhesion; every contact's wrench in contact and world frame compared (2e-4); ids >= nacon must not be written.",
+  "Worlds whose contact/row sets differ from MuJoCo's are skipped (counted).",
+)
+
 NOT_APPLICABLE = {}
 
 
